@@ -49,8 +49,32 @@ func verifyTxRoot(block *types.Block) error {
 	return nil
 }
 
+// collectTxHashes returns the hash of the transaction and the hashes of its sub transactions if it is a box transaction
+func collectTxHashes(tx *types.Transaction) []common.Hash {
+	hashes := []common.Hash{tx.Hash()}
+	if tx.Type() == params.BoxTx {
+		if box, err := types.GetBox(tx.Data()); err == nil {
+			for _, subTx := range box.SubTxList {
+				hashes = append(hashes, subTx.Hash())
+			}
+		}
+	}
+	return hashes
+}
+
 // verifyTxs verify the Tx list in block body
 func verifyTxs(block *types.Block, txGuard TxGuard, chainId uint16) error {
+	// a transaction must not appear twice in one block, neither on its own nor as a sub transaction of a box
+	seen := make(map[common.Hash]struct{}, len(block.Txs))
+	for _, tx := range block.Txs {
+		for _, hash := range collectTxHashes(tx) {
+			if _, ok := seen[hash]; ok {
+				log.Error("Consensus verify fail: tx is duplicated in block", "tx", hash.Hex())
+				return ErrVerifyBlockFailed
+			}
+			seen[hash] = struct{}{}
+		}
+	}
 	if txGuard.ExistTxs(block.ParentHash(), block.Txs) {
 		log.Error("Consensus verify fail: tx is appeared in parent blocks")
 		return ErrVerifyBlockFailed
